@@ -42,7 +42,7 @@ func replayOther(t *testing.T, env *vstat.Envelope, p string) {
 		defer drainTimers()
 		_, v := RunLease(sc)
 		vstat.For("C04").Report(t, "TestReplay", sc, v)
-	case "TestC05Rapid", "TestC05EveryK":
+	case "TestC05Rapid", "TestC05EveryK", "TestC05Multi":
 		var sc LeaseScenario
 		if _, err := vstat.LoadReplay(p, &sc); err != nil {
 			t.Fatalf("cannot decode %s: %v", p, err)
